@@ -54,7 +54,7 @@ RbxRoutes == {"rbx-c-mac", "rbx-c-rec", "rbx-c-encrypt0", "rbx-t-enc", "rbx-t-re
 EncRoutes == {"free-encrypt", "free-encrypt0", "free-enc-rec", "free-mac-rec", "free-rec-rec", "encrypt-lit", "encrypt0-lit",
               "recipient-lit-enc", "recipient-lit-mac", "recipient-lit-rec", "recipient-lit-badctx", "recipient-lit-badctx0",
               "encrypt-builder", "encrypt0-builder", "recipient-builder", "recipient-builder-badctx", "encrypt-builder-try", "recipient-builder-try", "encrypt0-builder-try"}
-             \cup RbxRoutes
+             \cup RbxRoutes \cup {"recipient-lit-enc-nested", "recipient-lit-mac-nested"}
 Routes == CASE Fam = "sig" -> SigRoutes [] Fam = "mac" -> MacRoutes [] Fam = "enc" -> EncRoutes
 
 (* the rest of the matrix {create_ciphertext, try_create_ciphertext} x five contexts on the recipient builder (round 5 of the
@@ -152,6 +152,10 @@ Steps ==
            [ev |-> "verify", m |-> "decrypt", aad |-> Aad, res |-> ROk,
             ctx |-> CASE st.r = "recipient-lit-enc" -> "EncRecipient" [] st.r = "recipient-lit-mac" -> "MacRecipient"
                       [] st.r = "recipient-lit-rec" -> "RecRecipient" [] st.r = "recipient-lit-badctx" -> "CoseEncrypt" [] OTHER -> "CoseEncrypt0"]>>
+    (* a recipient that itself carries a layer of recipients: the context stays the caller's (round 6) *)
+    [] st.r \in {"recipient-lit-enc-nested", "recipient-lit-mac-nested"} ->
+         <<Lit("CoseRecipient", [EncVal("CoseRecipient") EXCEPT !.recips = <<[prot |-> EmptyProt, unprot |-> EmptyHeader, cipher |-> <<<<9>>>>, recips |-> <<>>]>>]),
+           [ev |-> "verify", m |-> "decrypt", aad |-> Aad, res |-> ROk, ctx |-> IF st.r = "recipient-lit-enc-nested" THEN "EncRecipient" ELSE "MacRecipient"]>>
     [] st.r \in {"encrypt-builder", "encrypt0-builder", "encrypt-builder-try"} ->
          <<New(IF st.r = "encrypt0-builder" THEN "CoseEncrypt0" ELSE "CoseEncrypt"), SetProt,
            [ev |-> "call", m |-> IF st.r = "encrypt-builder-try" THEN "try_create_ciphertext" ELSE "create_ciphertext", pt |-> Pl, aad |-> Aad,
@@ -183,8 +187,8 @@ CtxText == CASE st.r \in {"free-sign1", "free-sign1-withsign", "sign1-lit", "sig
              [] st.r \in {"free-mac0", "mac0-lit", "mac0-builder", "mac0-builder-try"} -> "MAC0"
              [] st.r \in {"free-encrypt", "encrypt-lit", "encrypt-builder", "encrypt-builder-try"} -> "Encrypt"
              [] st.r \in {"free-encrypt0", "encrypt0-lit", "encrypt0-builder", "encrypt0-builder-try"} -> "Encrypt0"
-             [] st.r \in {"free-enc-rec", "recipient-lit-enc", "recipient-builder", "rbx-t-enc"} -> "Enc_Recipient"
-             [] st.r \in {"free-mac-rec", "recipient-lit-mac", "recipient-builder-try", "rbx-c-mac"} -> "Mac_Recipient"
+             [] st.r \in {"free-enc-rec", "recipient-lit-enc", "recipient-builder", "rbx-t-enc", "recipient-lit-enc-nested"} -> "Enc_Recipient"
+             [] st.r \in {"free-mac-rec", "recipient-lit-mac", "recipient-builder-try", "rbx-c-mac", "recipient-lit-mac-nested"} -> "Mac_Recipient"
              [] st.r \in {"free-rec-rec", "recipient-lit-rec", "rbx-c-rec", "rbx-t-rec"} -> "Rec_Recipient"
              [] OTHER -> "none"
 HasSignSlot == st.r \in {"free-sign", "free-sign1-withsign", "free-counter", "sign-lit", "sign-lit-detached", "sign-builder", "sign-builder-detached", "sign-builder-try",
@@ -198,7 +202,8 @@ MustPanic ==
   \/ st.r \in {"sign1-lit-detached", "sign-lit-detached"} /\ FALSE              \* lit values of the detached routes carry no payload
   \/ st.r \in {"sign1-builder-detached", "sign-builder-detached"} /\ FALSE
   \/ Fam = "mac" /\ st.r \notin {"free-mac", "free-mac0"} /\ ~HasPl
-  \/ st.r \in {"encrypt-lit", "encrypt0-lit", "recipient-lit-enc", "recipient-lit-mac", "recipient-lit-rec", "recipient-lit-badctx", "recipient-lit-badctx0"} /\ ~HasPl
+  \/ st.r \in {"encrypt-lit", "encrypt0-lit", "recipient-lit-enc", "recipient-lit-mac", "recipient-lit-rec", "recipient-lit-badctx", "recipient-lit-badctx0",
+               "recipient-lit-enc-nested", "recipient-lit-mac-nested"} /\ ~HasPl
   \/ st.r \in {"recipient-lit-badctx", "recipient-lit-badctx0", "recipient-builder-badctx", "rbx-c-encrypt0", "rbx-t-encrypt", "rbx-t-encrypt0"}
 (* every observation that carries a structure carries exactly the RFC bytes; refusals are exactly the documented ones *)
 StructOf(o) == IF o.bytes # <<>> THEN <<o.bytes[1]>> ELSE IF o.cb # <<>> THEN <<Last(o.cb)>> ELSE <<>>
